@@ -1,5 +1,5 @@
 """C06 (MAC family: MacTrace.tla)."""
-from . import macfam, core, mcnb
+from . import macfam, core, mcnb, mcdata
 PID = "C06"
 
 
@@ -18,8 +18,14 @@ def run():
             # the nb front-end as a design-level model: every order of application requests, radio and timer events
             ("MCNb.tla", "MCNb.cfg", {"workers": 4})],
         # specification -> implementation: one event sequence per transition of MCNb, executed on the real nb device
-        extra=[mcnb.extra(PID)])
+        extra=[mcnb.extra(PID),
+               # beyond the default build: the multicast build (set-up handler uplinks, multicast frames heard in RX1 / RX2)
+               mcdata.extra(PID)])
 
 
 def replay(path):
+    import json
+    with open(path) as f:
+        if json.load(f).get("mc"):
+            return mcdata.replay(PID, path)
     return macfam.replay(PID, path)
